@@ -32,6 +32,9 @@ fails, no txmode directives), every number `t0 ≤ |good|` of files applied by e
   of any kind - this mode rejects each of them -, any count, any revision table): a command that fails leaves
   the database exactly as it found it; `all_mode_ok_no_directive` — one that succeeds met no directive.
 
+* `fail_none_mode_any` — `--tx-mode none` for ANY directory without directives: whether the command fails or
+  not, the database holds exactly the operations it performed, in order - nothing is rolled back.
+
 PARTIAL: a per-file directive `all` under `--tx-mode file / none` (rejected by `modeFor`) and the
 pinned-tree `mayCommit` (`fixed = false`) are covered by the correspondence run and by `decide`d
 instances, not by general theorems; `dry_run_identity` speaks
@@ -42,6 +45,7 @@ reported by the correspondence run (known findings).
 import Lemmas.TxFail
 import Lemmas.TxMixed
 import Lemmas.TxAllAtomic
+import Lemmas.TxNonePlain
 import Props.C10
 
 namespace Props.C13
@@ -455,6 +459,15 @@ theorem all_mode_ok_no_directive (cfg : Cfg) (hm : cfg.mode = .all) (hd : cfg.dr
   unfold plan at hok
   simp only [hd, Bool.false_eq_true, ↓reduceIte] at hok
   exact planFiles_all_ok_directives cfg hm db _ false (pendingStart db) hok
+
+/-- **fail_none_mode_any**: `--tx-mode none`, any directory without directives (failing statements anywhere),
+any count and revision table: the final database is the fold of every operation of the command - the successful
+prefix and the revision rows that record it; nothing is undone. -/
+theorem fail_none_mode_any (cfg : Cfg) (hm : cfg.mode = .none) (dir : List TFile)
+    (hd : ∀ f ∈ dir, f.directive = none) (db : Db) :
+    runAll db (plan cfg dir db).1 = (plan cfg dir db).1.foldl durApply db := by
+  have := plan_none_crash_any cfg hm dir hd db (plan cfg dir db).1.length
+  simpa [crashAt, runAll, List.take_length] using this
 
 /-- premises met: two good files, then a file with a directive (each kind), then another file. -/
 def rejDir (m : Mode) : List TFile := [{ ok := [true, true] }, { ok := [true] }, { ok := [true], directive := some m }, { ok := [true] }]
